@@ -46,6 +46,31 @@ output, with exactly the content (1.1 sources: and the ids) of its source, whate
 ran before. A file of a MID kind that is unconvertible for sure (syntax error) has to be skipped and reported; for
 the others the statement does not say whether they are convertible: they may get an output (not examined) or must be
 named in the report as skipped / failed.
+
+Markup of the valid files (a dimension of its own, see XML_SYNTAX / DICT_SYNTAX): the same content written with
+everything an XML text may carry besides it - comments before the root, after it and between the elements whose text
+looks like tags, like the root or the elements of an odML file, like another vocabulary, like a declaration, a CDATA
+section or a DOCTYPE, on one line and on several; processing instructions with arbitrary targets (also one named
+like the root) and tag-like data at the same places; DOCTYPE with and without internal subset / system identifier;
+declaration with standalone, with white space and single quotes, without line break before the root, blank lines
+before / after the root, no line break at the end of the file; root start tag with single quotes, white space / tabs /
+line breaks inside, unused namespace declarations before / after / around the version attribute; white space inside
+all other tags; layout (one element per line with spaces / tabs / CRLF, blank lines between elements); character data
+as CDATA sections (also next to escaped text, also with ']]>' inside), as decimal / hexadecimal character references,
+with the predefined entities, with markup characters in every text (repertoire 'markup': < > & quotes ]]> <odML ...>
+in author, names, values, units); comments and processing instructions inside character data (before / after / amid
+the text). JSON: compact, tabs, white space around every token, keys sorted / reversed, u-escapes and escaped slashes for
+plain characters, one line without line break at the end; YAML: comments (odML-like text) and blank lines, document
+start marker, %YAML directive with both markers, flow style, JSON text in a .yaml file, indentation 4, keys sorted /
+reversed. Each markup is run alone, next to every core kind of file that has to be skipped (both creation orders,
+nested), all in one tree interleaved with all bad kinds, in random combinations of two or three features crossed with
+the stored forms (encodings, byte order marks) and repertoires, for both command line tools and (valid sources) every
+target of the format converter. The oracle is the one above: these files are valid, so each gets its output with
+exactly the content of its source.
+Files that mention odML without being odML (LOOKALIKE) join the kinds that have to be skipped: XML of another
+vocabulary with the odML root / element names in a comment, a processing instruction, in text / CDATA / an attribute
+value, in the name of its root (odMLTerms), with an odML element below a foreign root; plain text with an odML start
+tag; JSON / YAML that is not odML but uses the words Document and odml-version.
 """
 from __future__ import annotations
 
@@ -56,6 +81,7 @@ import itertools
 import json
 import os
 import random
+import re
 import shutil
 import warnings
 
@@ -96,6 +122,11 @@ REPERTOIRES = {
             'val': '\u6771\u4eac \u2192 \u03b1', 'unit': '\u03a9'},
     'astral': {'author': 'A\U0001d6fcB \U0001f600', 'sec': 'S\U0001d6fc', 'prop': 'p\U0001d6fd',
                'val': '\U0001f600 ok', 'unit': '\u00b5V'},
+    # characters that are markup in XML (and indicators in YAML): they reach a file only escaped, as character
+    # references or inside CDATA sections; the text looks like tags, like the root of an odML file, like the end of
+    # a CDATA section
+    'markup': {'author': 'A & B <lab@example.org> "q" \'r\' ]]> <odML version="1">', 'sec': '<1>&amp;',
+               'prop': '&<name>', 'val': 'a < b & c > d <odML> &lt;', 'unit': '<mV>&'},
 }
 DOC_DATE = '2008-07-07'
 DOC_VERSION = 'v1.13'
@@ -214,11 +245,12 @@ KINDS = {
     'v10-xml': ('.xml', lambda c: g.to_xml(to_v10(c))),
     'v10-odml': ('.odml', lambda c: g.to_xml(to_v10(c))),
     'v10-json': ('.json', lambda c: g.to_json(to_v10(c))),
-    'v10-yaml': ('.yaml', lambda c: g.to_yaml(to_v10(c))),
+    'v10-yaml': ('.yaml', lambda c: _ydump(g.to_dict(to_v10(c), 'YAML'), sort_keys=False, allow_unicode=True,
+                                           width=80)),
     'v11-xml': ('.xml', v11_xml),
     'v11-odml': ('.odml', v11_xml),
     'v11-json': ('.json', lambda c: json.dumps(v11_dict(c), indent=2)),
-    'v11-yaml': ('.yaml', lambda c: yaml.safe_dump(v11_dict(c), default_flow_style=False)),
+    'v11-yaml': ('.yaml', lambda c: _ydump(v11_dict(c), width=80)),
     'empty-xml': ('.xml', lambda c: ''),
     'text-xml': ('.xml', lambda c: 'just some notes\nnot markup at all\n'),
     'malformed-xml': ('.xml', lambda c: '<odML version="1"><section><name>x</name><type>t</type>'),
@@ -239,6 +271,29 @@ KINDS = {
     'binary-json': ('.json', lambda c: BINARY),
     'binary-yaml': ('.yaml', lambda c: BINARY),
 }
+# files that are not odML but mention odML: the root element of an odML file, its element names or the keys of the
+# JSON / YAML form occur in comments, processing instructions, text, attribute values, in the name of the root, below
+# a root of another vocabulary, or in text that is not XML / JSON at all
+_HTML = '<html><head><title>t</title></head><body><p>hi</p></body></html>\n'
+LOOKALIKE = {
+    'foreign-xml-odml-like-comment': ('.xml', lambda c: '<?xml version="1.0"?>\n<!-- see the <odML version="1"> files -->\n'
+                                      + _HTML.replace('<p>', '<!-- <odML version="1.1"> <section> --><p>')),
+    'foreign-xml-odml-like-pi': ('.xml', lambda c: '<?xml version="1.0"?>\n<?note <odML version="1"> ?>\n' + _HTML),
+    'foreign-xml-odml-like-text': ('.xml', lambda c: '<?xml version="1.0"?>\n' + _HTML.replace(
+        '<p>hi', '<p title="&lt;odML version=\'1\'&gt;">&lt;odML version="1"&gt; '
+                 '<![CDATA[<odML version="1"><section></section></odML>]]>')),
+    'foreign-xml-odml-like-root-name': ('.xml', lambda c: '<?xml version="1.0"?>\n<odMLTerms version="1"><section>'
+                                        '<name>x</name><type>t</type></section></odMLTerms>\n'),
+    'foreign-xml-odml-element-inside': ('.xml', lambda c: '<?xml version="1.0"?>\n<export tool="notebook"><odML version="1">'
+                                        '<section><name>x</name><type>t</type></section></odML></export>\n'),
+    'text-xml-odml-like': ('.xml', lambda c: 'notes on the <odML version="1"> format\n<section> is its unit\n'),
+    'text-json-odml-like': ('.json', lambda c: '"Document" and "odml-version": "1" are the keys\n'),
+    'foreign-json-odml-like': ('.json', lambda c: '{"odml-version": "1", "document": {"sections": []}, '
+                                                 '"note": "<odML version=\\"1\\">"}\n'),
+    'foreign-yaml-odml-like': ('.yaml', lambda c: '# odml-version: 1\n# Document:\nnote: <odML version="1">\nitems:\n'
+                                                 '- Document\n- odml-version\n'),
+}
+KINDS.update(LOOKALIKE)
 GOOD = [k for k in KINDS if k.startswith('v1')]
 BAD = [k for k in KINDS if not k.startswith('v1')]
 CORE_BAD = ['empty-xml', 'text-xml', 'malformed-xml', 'foreign-xml']
@@ -372,7 +427,7 @@ SHARED_FORMATS = ['v10-xml', 'v10-odml', 'v10-json', 'v10-yaml', 'v11-xml', 'v11
 def _dict_text(fmt, data):
     if fmt.endswith('json'):
         return json.dumps(data, indent=1)
-    return yaml.safe_dump(data, default_flow_style=False, sort_keys=False)
+    return _ydump(data, sort_keys=False, width=80)
 
 
 def _mid_builder(fmt, cdefect=None, xdefect=None, ddefect=None, textdefect=None):
@@ -536,11 +591,348 @@ def variants_of(kind, tier):
                     yield form, rep
 
 
+# ---------------------------------------------------------------------------------------------
+# the markup of a valid file: everything the XML / JSON / YAML text may carry besides its content
+# (comments, processing instructions, DOCTYPE, CDATA sections, character references, namespace declarations,
+# quotes, white space inside and between tags, layout, key order, flow / block style, document markers)
+# ---------------------------------------------------------------------------------------------
+
+# texts of comments: a comment may hold anything but '--' (and must not end with '-')
+C_CONTACT = ' Lab metadata export. Contact: Jane Doe <jane.doe@example.org> '
+C_TOOL = ' exported by <tool> '
+C_ODML = (' template: <odML version="1.1"> <section> <name>x</name> <property> <value>1</value> </property> '
+          '</section> </odML> ')
+C_ODML10 = ' <odML version="1"> '
+C_FOREIGN = ' converted from <html><body> by <xsl:stylesheet version="2.0"/> '
+C_DECL = ' <?xml version="1.0" encoding="UTF-16"?> version="1.1" ]]> <![CDATA[ <!DOCTYPE html> '
+C_MULTI = '\n  Lab metadata export\n  <odML>\n  odml-version: 1.1\n  <html>\n'
+C_PLAIN = ' exported by the lab notebook '
+PI_STYLE = '<?xml-stylesheet type="text/xsl" href="odmlTerms.xsl"?>'
+PI_TAGS = '<?lab-notebook export="<odML version=\'1.1\'>" <section> <html> ?>'
+PI_PHP = '<?php echo "<html>"; ?>'
+PI_ROOTNAME = '<?odML version="1.1"?>'
+PI_MODEL = '<?xml-model href="odml.rnc" type="application/relax-ng-compact-syntax"?>'
+XSI = 'xmlns:xsi="http://www.w3.org/2001/XMLSchema-instance"'
+DECL8 = '<?xml version="1.0" encoding="UTF-8"?>\n'
+
+
+def _cm(text):
+    return '<!--%s-->' % text
+
+
+def _t_cdata(s, i):
+    # ']]>' cannot stand inside one CDATA section: it is split over two
+    return '<![CDATA[%s]]>' % s.replace(']]>', ']]]]><![CDATA[>')
+
+
+def _t_cdata_part(s, i):
+    """Escaped text and CDATA sections side by side in one text."""
+    k = (len(s) + 1) // 2
+    return g._esc(s[:k]) + (_t_cdata(s[k:], i) if s[k:] else '<![CDATA[]]>')
+
+
+def _t_charref(s, i):
+    """Every second character (and every markup character) as decimal / hexadecimal character reference."""
+    return ''.join(c if (n + i) % 2 and c not in '<>&' else ('&#%d;' if (n + i) % 4 < 2 else '&#x%x;') % ord(c)
+                   for n, c in enumerate(s))
+
+
+def _t_named(s, i):
+    return g._esc(s).replace('"', '&quot;').replace("'", '&apos;')
+
+
+def _t_comment_after(s, i):
+    return g._esc(s) + _cm((' checked ', C_ODML10, ' <%s> ' % s.replace('-', ''))[i % 3])
+
+
+def _t_comment_before(s, i):
+    return _cm((' checked ', C_ODML10, ' <value>0</value> ')[i % 3]) + g._esc(s)
+
+
+def _t_comment_amid(s, i):
+    k = (len(s) + 1) // 2
+    return g._esc(s[:k]) + _cm((' <odML> ', ' checked ')[i % 2]) + g._esc(s[k:])
+
+
+def _t_pi_after(s, i):
+    return g._esc(s) + ('<?checked by="<tool>"?>', PI_ROOTNAME)[i % 2]
+
+
+def _t_pi_before(s, i):
+    return ('<?checked by="<tool>"?>', PI_ROOTNAME)[i % 2] + g._esc(s)
+
+
+def _t_pi_amid(s, i):
+    k = (len(s) + 1) // 2
+    return g._esc(s[:k]) + '<?break?>' + g._esc(s[k:])
+
+
+def _root(fmt):
+    return lambda version: fmt % version
+
+
+def _tag_space(tag, i):
+    return tag[:-1] + ' >'
+
+
+def _tag_newline(tag, i):
+    return tag[:-1] + ('\n>' if i % 2 else '\n    >')
+
+
+INNER_COMMENTS = [_cm(C_ODML10), _cm(' <section> '), _cm(C_TOOL), _cm(' <name>x</name> '), _cm(C_ODML), _cm(' </odML> '),
+                  _cm(' <property><name>ghost</name><value>1</value></property> ')]
+INNER_PIS = [PI_TAGS, PI_ROOTNAME, PI_PHP, '<?section name="ghost"?>']
+
+# name -> parts of the text that differ from the plain form:
+#   decl (the XML declaration, stored form utf-8 only), prolog / epilog (between declaration and root / after the root),
+#   root (start tag of the root for a version), endroot, tag (spelling of every other tag), between (comments /
+#   processing instructions cycled over the places between elements), text (spelling of character data),
+#   layout (line end, indentation unit: white space between elements), rep (character repertoire of the content),
+#   label (name of the feature in failure classes when several entries are positions of one feature)
+XML_SYNTAX = {
+    # ---- before the root
+    'comment-before-root:plain-text': {'prolog': _cm(C_PLAIN) + '\n'},
+    'comment-before-root:tag-like-text:mail-address': {'prolog': _cm(C_CONTACT) + '\n'},
+    'comment-before-root:tag-like-text:tool-name': {'prolog': _cm(C_TOOL) + '\n'},
+    'comment-before-root:odml-like-text': {'prolog': _cm(C_ODML) + '\n'},
+    'comment-before-root:odml-1.0-root-like-text': {'prolog': _cm(C_ODML10) + '\n'},
+    'comment-before-root:other-vocabulary-like-text': {'prolog': _cm(C_FOREIGN) + '\n'},
+    'comment-before-root:declaration-cdata-doctype-like-text': {'prolog': _cm(C_DECL) + '\n'},
+    'comment-before-root:several-lines': {'prolog': _cm(C_MULTI) + '\n'},
+    'comments-before-root:several': {'prolog': _cm(C_PLAIN) + _cm(C_TOOL) + '\n\n' + _cm(C_ODML) + '\n'},
+    'comment-before-root:no-declaration': {'decl': '', 'prolog': _cm(C_CONTACT) + '\n'},
+    'comment-before-root:no-line-break-before-root': {'prolog': _cm(C_TOOL)},
+    'processing-instruction-before-root:stylesheet': {'prolog': PI_STYLE + '\n'},
+    'processing-instruction-before-root:tag-like-data': {'prolog': PI_TAGS + '\n'},
+    'processing-instruction-before-root:other-vocabulary-like-data': {'prolog': PI_PHP + '\n'},
+    'processing-instruction-before-root:target-named-like-root': {'prolog': PI_ROOTNAME + '\n'},
+    'processing-instructions-before-root:several-and-comment': {'prolog': PI_STYLE + '\n' + PI_MODEL + '\n' + _cm(C_CONTACT)
+                                                                + '\n' + PI_TAGS + '\n'},
+    'doctype:name-only': {'prolog': '<!DOCTYPE odML>\n'},
+    'doctype:internal-subset': {'prolog': '<!DOCTYPE odML [\n<!ELEMENT odML ANY>\n<!-- <odML version="1.1"> -->\n'
+                                          '<?note <html> ?>\n]>\n'},
+    'doctype:internal-subset:after-comment': {'prolog': _cm(C_TOOL) + '\n<!DOCTYPE odML [ <!ELEMENT section ANY> ]>\n'},
+    'doctype:system-identifier': {'prolog': '<!DOCTYPE odML SYSTEM "odml.dtd">\n'},
+    'blank-lines-before-root': {'prolog': '\n\n   \n\t\n'},
+    'blank-lines-before-root:no-declaration': {'decl': '', 'prolog': '\n\n  '},
+    # ---- the declaration
+    'declaration:standalone': {'decl': '<?xml version="1.0" encoding="UTF-8" standalone="yes"?>\n'},
+    'declaration:white-space-and-single-quotes': {'decl': "<?xml version = '1.0'   encoding = 'utf-8' ?>\n"},
+    'declaration:no-line-break-before-root': {'decl': '<?xml version="1.0" encoding="UTF-8"?>'},
+    # ---- after the root
+    'comment-after-root:odml-like-text': {'epilog': _cm(C_ODML10) + '\n' + _cm(C_ODML) + '\n'},
+    'comment-after-root:tag-like-text': {'epilog': '\n' + _cm(C_CONTACT)},
+    'processing-instruction-after-root': {'epilog': PI_TAGS + '\n'},
+    'blank-lines-after-root': {'epilog': '\n\n  \n\t\n'},
+    'no-line-break-at-end-of-file': {'epilog': None},
+    # ---- the root start / end tag
+    'root:single-quotes': {'root': _root("<odML version='%s'>")},
+    'root:white-space-inside-tag': {'root': _root('<odML\n    version = "%s"\n>'), 'endroot': '</odML\n>'},
+    'root:tab-inside-tag': {'root': _root('<odML\tversion="%s"\t>'), 'endroot': '</odML\t>'},
+    'root:unused-namespace-declaration-after-version': {'root': _root('<odML version="%s" ' + XSI + '>')},
+    'root:unused-namespace-declaration-before-version': {'root': _root('<odML ' + XSI + ' version="%s">')},
+    'root:unused-namespace-declarations-around-version': {
+        'root': _root('<odML xmlns:gn="http://g-node.org/" version=\'%s\'\n      ' + XSI + '>')},
+    # ---- the other tags
+    'tags:space-before-closing-bracket': {'tag': _tag_space},
+    'tags:line-break-before-closing-bracket': {'tag': _tag_newline},
+    # ---- between the elements
+    'comments-between-elements:odml-like-text': {'between': INNER_COMMENTS},
+    'processing-instructions-between-elements:tag-like-data': {'between': INNER_PIS},
+    'comments-and-processing-instructions-everywhere': {
+        'prolog': _cm(C_CONTACT) + '\n' + PI_TAGS + '\n', 'between': INNER_COMMENTS + INNER_PIS,
+        'epilog': '\n' + _cm(C_ODML) + PI_PHP + '\n'},
+    'layout:one-element-per-line:two-spaces': {'layout': ('\n', '  ')},
+    'layout:one-element-per-line:tabs': {'layout': ('\n', '\t')},
+    'layout:one-element-per-line:crlf': {'layout': ('\r\n', '    ')},
+    'layout:blank-lines-between-elements': {'layout': ('\n\n\n', '')},
+    'layout:one-element-per-line:with-comments': {'layout': ('\n', '  '), 'between': INNER_COMMENTS,
+                                                  'prolog': _cm(C_TOOL) + '\n'},
+    # ---- character data
+    'text:cdata-sections': {'text': _t_cdata, 'rep': 'markup'},
+    'text:cdata-sections:plain-characters': {'text': _t_cdata, 'rep': 'ascii'},
+    'text:cdata-section-after-escaped-text': {'text': _t_cdata_part, 'rep': 'markup'},
+    'text:character-references': {'text': _t_charref, 'rep': 'markup'},
+    'text:character-references:plain-characters': {'text': _t_charref, 'rep': 'ascii'},
+    'text:predefined-entities-for-quotes': {'text': _t_named, 'rep': 'markup'},
+    'text:markup-characters-escaped': {'rep': 'markup'},
+    # ---- comments / processing instructions inside character data (they are no part of the text around them)
+    'comment-inside-character-data:after-the-text': {'text': _t_comment_after, 'label': 'comment-inside-character-data'},
+    'comment-inside-character-data:before-the-text': {'text': _t_comment_before, 'label': 'comment-inside-character-data'},
+    'comment-inside-character-data:amid-the-text': {'text': _t_comment_amid, 'label': 'comment-inside-character-data'},
+    'processing-instruction-inside-character-data:after-the-text': {
+        'text': _t_pi_after, 'label': 'processing-instruction-inside-character-data'},
+    'processing-instruction-inside-character-data:before-the-text': {
+        'text': _t_pi_before, 'label': 'processing-instruction-inside-character-data'},
+    'processing-instruction-inside-character-data:amid-the-text': {
+        'text': _t_pi_amid, 'label': 'processing-instruction-inside-character-data'},
+}
+XML_SYNTAX_KEYS = ('decl', 'prolog', 'epilog', 'root', 'endroot', 'tag', 'between', 'text', 'layout')
+_TOKEN = re.compile(r'<[^>]+>|[^<]+')
+
+
+def _unesc(s):
+    return s.replace('&lt;', '<').replace('&gt;', '>').replace('&amp;', '&')
+
+
+def syntax_parts(syntax):
+    """The parts of a syntax name; 'a+b' combines the parts of a and b (the first one that sets a part wins)."""
+    parts = {}
+    for name in syntax.split('+'):
+        for key, val in XML_SYNTAX[name].items():
+            parts.setdefault(key, val)
+    return parts
+
+
+def xml_markup(body, syntax, head, own_decl=True):
+    """The text of an XML file: `body` is the plain text of the root element as the printers write it (no white
+    space between elements, character data escaped with &lt; &gt; &amp; only), `head` the declaration of the stored
+    form."""
+    sx = syntax_parts(syntax)
+    tokens = _TOKEN.findall(body.strip())
+    out, stack = [], []
+    layout, between = sx.get('layout'), sx.get('between')
+    n_between = n_text = n_tag = 0
+
+    def gap(depth):
+        """What stands between two elements (only where the content of the parent is elements only)."""
+        nonlocal n_between
+        ws = layout[0] + layout[1] * depth if layout else ''
+        res = ws
+        if between:
+            res += between[n_between % len(between)] + ws
+            n_between += 1
+        return res
+
+    prev = None
+    for tok in tokens:
+        if tok.startswith('</'):
+            name = tok[2:-1]
+            stack.pop()
+            if prev == 'close' and name != 'value':
+                out.append(gap(len(stack)))
+            if not stack:
+                out.append(sx.get('endroot', tok))
+            else:
+                out.append(sx['tag'](tok, n_tag) if 'tag' in sx else tok)
+            n_tag += 1
+            prev = 'close'
+        elif tok.startswith('<'):
+            name = tok[1:-1].split()[0]
+            if not stack:
+                version = re.search(r'version="([^"]*)"', tok).group(1)
+                out.append(sx['root'](version) if 'root' in sx else tok)
+            else:
+                if 'value' not in stack:
+                    out.append(gap(len(stack)))
+                out.append(sx['tag'](tok, n_tag) if 'tag' in sx else tok)
+            n_tag += 1
+            stack.append(name)
+            prev = 'open'
+        else:
+            out.append(sx['text'](_unesc(tok), n_text) if 'text' in sx else tok)
+            n_text += 1
+            prev = 'text'
+    epilog = sx.get('epilog', '')
+    return (sx.get('decl', head) if own_decl else head) + sx.get('prolog', '') + ''.join(out) + ('' if epilog is None else '\n' + epilog)
+
+
+def _ydump(data, **kw):
+    kw.setdefault('default_flow_style', False)
+    kw.setdefault('width', 1000)
+    return yaml.dump(data, Dumper=getattr(yaml, 'CSafeDumper', yaml.SafeDumper), **kw)
+
+
+def _json_escapes(text):
+    """Letters and '/' inside the strings of a JSON text as escapes (\\u0041, \\/): the same strings."""
+    def lit(m):
+        out, k, s = [], 0, m.group(0)
+        i = 1
+        res = ['"']
+        while i < len(s) - 1:
+            ch = s[i]
+            if ch == '\\':
+                res.append(s[i:i + 2] if s[i + 1] != 'u' else s[i:i + 6])
+                i += 2 if s[i + 1] != 'u' else 6
+                continue
+            k += 1
+            res.append('\\/' if ch == '/' else '\\u%04x' % ord(ch) if k % 3 == 0 and ch.isascii() and ch.isalnum()
+                       else ch)
+            i += 1
+        return ''.join(res) + '"'
+    return re.sub(r'"(?:[^"\\]|\\.)*"', lit, text)
+
+
+Y_COMMENTS = ['# <odML version="1.1">', '# odml-version: 1.1', '# Document:', '# exported by <tool>',
+              '#   - name: ghost', '# {"Document": {}}', '#']
+
+
+def _yaml_comments(text):
+    """Comment lines, comments at the end of lines that end a mapping key, blank lines: the same YAML document."""
+    out = ['# Lab metadata export. Contact: Jane Doe <jane.doe@example.org>', Y_COMMENTS[0], Y_COMMENTS[1], '']
+    for i, line in enumerate(text.splitlines()):
+        if i % 3 == 0:
+            out.append(' ' * (i % 5) + Y_COMMENTS[(i // 3) % len(Y_COMMENTS)])
+        if i % 7 == 3:
+            out.append('')
+        out.append(line + ('   # ' + Y_COMMENTS[i % 4][2:] if line.endswith(':') else ''))
+    return '\n'.join(out) + '\n# end of <odML>\n'
+
+
+# name -> (formats it exists in, data -> text, repertoire)
+DICT_SYNTAX = {
+    'json:compact': ('json', lambda d: json.dumps(d, separators=(',', ':'), ensure_ascii=False), 'latin1'),
+    'json:indent-tabs': ('json', lambda d: json.dumps(d, indent='\t', ensure_ascii=False), 'ascii'),
+    'json:white-space-around-every-token': ('json', lambda d: '\n\n \t' + json.dumps(
+        d, indent=3, separators=(' ,  ', '  :\t'), ensure_ascii=False) + '\n\n\n \t', 'ascii'),
+    'json:keys-sorted': ('json', lambda d: json.dumps(g._reorder(d, 'sorted'), indent=1), 'ascii'),
+    'json:keys-reversed': ('json', lambda d: json.dumps(g._reorder(d, 'reversed'), indent=1), 'ascii'),
+    'json:escapes-for-plain-characters': ('json', lambda d: _json_escapes(json.dumps(d, indent=1)), 'markup'),
+    'json:markup-characters': ('json', lambda d: json.dumps(d, indent=1, ensure_ascii=False), 'markup'),
+    'json:no-line-break-at-end-of-file:one-line': ('json', lambda d: json.dumps(d), 'ascii'),
+    'yaml:comments-and-blank-lines:odml-like-text': ('yaml', lambda d: _yaml_comments(_ydump(d, sort_keys=False)), 'ascii'),
+    'yaml:document-start-marker': ('yaml', lambda d: '---\n' + _ydump(d, sort_keys=False), 'ascii'),
+    'yaml:directive-and-document-markers': ('yaml', lambda d: '%YAML 1.1\n---\n' + _ydump(d, sort_keys=False) + '...\n',
+                                            'ascii'),
+    'yaml:flow-style': ('yaml', lambda d: _ydump(d, default_flow_style=True, sort_keys=False), 'ascii'),
+    'yaml:json-text': ('yaml', lambda d: json.dumps(d, indent=2), 'latin1'),
+    'yaml:indent-4': ('yaml', lambda d: _ydump(d, indent=4, sort_keys=False), 'ascii'),
+    'yaml:keys-sorted': ('yaml', lambda d: _ydump(g._reorder(d, 'sorted'), sort_keys=False), 'ascii'),
+    'yaml:keys-reversed': ('yaml', lambda d: _ydump(g._reorder(d, 'reversed'), sort_keys=False), 'ascii'),
+    'yaml:markup-characters': ('yaml', lambda d: _ydump(d, sort_keys=False, allow_unicode=True), 'markup'),
+}
+
+
+def syntaxes_of(kind):
+    if kind in XML_GOOD:
+        return list(XML_SYNTAX)
+    if kind in DICT_GOOD:
+        return [s for s in DICT_SYNTAX if DICT_SYNTAX[s][0] == kind[4:]]
+    return []
+
+
+def syntax_rep(kind, syntax):
+    if kind in XML_GOOD:
+        return syntax_parts(syntax).get('rep', 'ascii')
+    return DICT_SYNTAX[syntax][2]
+
+
+def syntax_var(kind, syntax, form=None, rep=None):
+    """The stored form (form, repertoire, syntax) of a valid file written with the given markup."""
+    return (form or ('utf-8' if kind in XML_GOOD else 'utf-8-raw'), rep or syntax_rep(kind, syntax), syntax)
+
+
 def vlabel(kind, var):
     """Stable label of a stored form for failure classes."""
     if var is None:
         return kind
-    form, rep = var
+    form, rep = var[:2]
+    if len(var) > 2:
+        syntax = var[2] if '+' not in var[2] else 'several-markup-features'
+        syntax = XML_SYNTAX.get(syntax, {}).get('label', syntax)
+        if form in ('utf-8', 'utf-8-raw'):
+            return '%s:%s' % (kind, syntax)
+        return '%s:%s:stored-as-%s' % (kind, syntax, form)
     if rep == default_rep(kind, form):
         return '%s:%s' % (kind, form)
     return '%s:%s:%s-characters' % (kind, form, rep)
@@ -553,11 +945,15 @@ def render(kind, cont, var):
     if var is None or kind in BAD:
         data = KINDS[kind][1](cont)
         return data if isinstance(data, bytes) else data.encode('utf-8')
-    form, _ = var
+    form = var[0]
+    syntax = var[2] if len(var) > 2 else None
     if kind in XML_GOOD:
         head, codec, bom, how, _ = XML_FORMS[form]
         body = g.to_xml(to_v10(cont), decl='') if kind.startswith('v10') else v11_xml(cont, decl='')
-        text = head + body
+        if syntax:
+            text = xml_markup(body, syntax, head, own_decl=(form == 'utf-8'))
+        else:
+            text = head + body
         if how == 'charref':
             text = _charref(text)
         elif how == 'crlf':
@@ -566,10 +962,12 @@ def render(kind, cont, var):
     codec, bom, how, _ = DICT_FORMS[form]
     data = g.to_dict(to_v10(cont)) if kind.startswith('v10') else v11_dict(cont)
     raw = how != 'escaped'
-    if kind.endswith('json'):
+    if syntax:
+        text = DICT_SYNTAX[syntax][1](data)
+    elif kind.endswith('json'):
         text = json.dumps(data, indent=1, ensure_ascii=not raw)
     else:
-        text = yaml.safe_dump(data, default_flow_style=False, sort_keys=False, allow_unicode=raw)
+        text = _ydump(data, sort_keys=False, allow_unicode=raw, width=80)
     if how == 'raw-crlf':
         text = text.replace('\n', '\r\n')
     return bom + text.encode(codec)
@@ -1025,7 +1423,7 @@ CONFIGS = [(r, e) for r in (False, True) for e in (False, True)]
 
 def cli_layouts(tier, rnd):
     """Directory trees for the command line tools."""
-    kinds = list(KINDS)
+    kinds = [k for k in KINDS if tier != 'quick' or k not in LOOKALIKE]     # quick: those have their own trees
     # every kind alone
     for k in kinds:
         yield ('single', k), [('', k)]
@@ -1152,6 +1550,121 @@ def same_ext_good(kind, version):
     return [k for k in GOOD if KINDS[k][0] == ext and k.startswith(version)][0]
 
 
+XML_LOOKALIKE = [k for k in LOOKALIKE if k.endswith(('comment', 'pi', 'text', 'root-name', 'inside')) or k == 'text-xml-odml-like']
+
+
+def _combined_syntax(rnd):
+    """Two or three markup features in one file."""
+    return '+'.join(rnd.sample(list(XML_SYNTAX), rnd.choice([2, 3])))
+
+
+def syntax_layouts(tier, rnd):
+    """Directory trees for the command line tools whose valid files vary in their markup (comments, processing
+    instructions, DOCTYPE, CDATA, character references, namespace declarations, quotes, white space, layout; key
+    order, flow style, comments, document markers of JSON / YAML), alone, next to files that have to be skipped
+    (among them files that are not odML but mention odML), all together, and in random combinations crossed with the
+    stored forms (encoding, byte order mark) and character repertoires."""
+    quick = tier == 'quick'
+    bads = CORE_BAD + XML_LOOKALIKE
+    # (1) every markup alone / next to a file that has to be skipped
+    for i, sx in enumerate(XML_SYNTAX):
+        if quick:
+            # one directory: a 1.0 and a 1.1 file with this markup and a bad file, creation order rotating
+            a, b = ('v10-xml', 'v11-odml') if i % 2 else ('v10-odml', 'v11-xml')
+            trio = [('', a, syntax_var(a, sx)), ('', bads[i % len(bads)]), ('', b, syntax_var(b, sx))]
+            yield ('syntax-trio', sx), trio[i % 3:] + trio[:i % 3]
+            continue
+        for kind in XML_GOOD:
+            var = syntax_var(kind, sx)
+            yield ('syntax-single', kind, sx), [('', kind, var)]
+            for j, bad in enumerate(bads):
+                if kind.endswith('odml') and j != i % len(bads):
+                    continue
+                yield ('syntax-pair', kind, sx, bad, 'good-first'), [('', kind, var), ('', bad)]
+                yield ('syntax-pair', kind, sx, bad, 'bad-first'), [('', bad), ('', kind, var)]
+                if j == i % len(bads):
+                    yield ('syntax-pair', kind, sx, bad, 'nested'), [('sub', bad), ('', kind, var), ('sub', kind, var)]
+    dict_bads = {'json': ['text-json', 'foreign-json', 'text-json-odml-like', 'foreign-json-odml-like', 'binary-json'],
+                 'yaml': ['text-yaml', 'foreign-yaml', 'foreign-yaml-odml-like', 'binary-yaml', 'empty-yaml']}
+    for i, sx in enumerate(DICT_SYNTAX):
+        fmt = DICT_SYNTAX[sx][0]
+        a, b = 'v10-' + fmt, 'v11-' + fmt
+        bad = dict_bads[fmt][i % 5]
+        if quick:
+            trio = [('', a, syntax_var(a, sx)), ('', bad), ('', b, syntax_var(b, sx))]
+            yield ('syntax-trio', sx), trio[i % 3:] + trio[:i % 3]
+            continue
+        for kind in (a, b):
+            var = syntax_var(kind, sx)
+            yield ('syntax-single', kind, sx), [('', kind, var)]
+            yield ('syntax-pair', kind, sx, bad, 'good-first'), [('', kind, var), ('sub', kind, var), ('', bad)]
+            yield ('syntax-pair', kind, sx, bad, 'bad-first'), [('', bad), ('', kind, var)]
+    # (2) the files that mention odML without being odML: alone and next to plain valid files
+    for i, bad in enumerate(LOOKALIKE):
+        good = same_ext_good(bad, ('v10', 'v11')[i % 2])
+        other = same_ext_good(bad, ('v11', 'v10')[i % 2])
+        yield ('lookalike-single', bad), [('', bad)]
+        yield ('lookalike-pair', bad, 'bad-first'), [('', bad), ('', good), ('sub', other)]
+        if not quick:
+            yield ('lookalike-pair', bad, 'good-first'), [('', good), ('', bad)]
+            yield ('lookalike-pair', bad, 'other-version'), [('', other), ('sub', bad), ('', bad)]
+    # (3) every markup in one tree, interleaved with every kind of file that has to be skipped
+    every = []
+    for i, sx in enumerate(XML_SYNTAX):
+        for kind in (XML_GOOD[i % 4], XML_GOOD[(i + 2) % 4]):           # a 1.0 and a 1.1 file, extensions alternate
+            every.append((kind, syntax_var(kind, sx)))
+    for sx in DICT_SYNTAX:
+        for version in ('v10-', 'v11-'):
+            kind = version + DICT_SYNTAX[sx][0]
+            every.append((kind, syntax_var(kind, sx)))
+    mixed, bad_cycle = [], itertools.cycle(BAD)
+    for n, (k, v) in enumerate(every):
+        mixed.append((k, v))
+        if n % 3 == 0:
+            mixed.append((next(bad_cycle), None))
+    yield ('syntax-all', 'mixed', 'nested'), [(['', 'sub', 'sub/deep'][i % 3], k, v) for i, (k, v) in enumerate(mixed)]
+    if not quick:
+        yield ('syntax-all', 'valid-only', 'flat'), [('', k, v) for k, v in every]
+        yield ('syntax-all', 'mixed', 'flat'), [('', k, v) for k, v in mixed]
+        yield ('syntax-all', 'mixed', 'nested-reversed'), [(['sub/deep', 'sub', ''][i % 3], k, v)
+                                                           for i, (k, v) in enumerate(reversed(mixed))]
+    # (4) random combinations of markup features x stored form x character repertoire, mixed with bad files
+    for i in range(8 if quick else 150):
+        lay = []
+        for _ in range(rnd.randint(3, 6)):
+            kind = rnd.choice(list(KINDS))
+            var = None
+            if kind in XML_GOOD:
+                form = rnd.choice(forms_of(kind))
+                sx = _combined_syntax(rnd) if rnd.random() < 0.7 else rnd.choice(list(XML_SYNTAX))
+                reps = [r for r in REPERTOIRES if can_carry(kind, form, r)]
+                if XML_FORMS[form][3] == 'charref':
+                    reps = ['ascii']        # this form spells every other character as reference, also inside CDATA
+                var = (form, rnd.choice(reps + ['markup']), sx)
+            elif kind in DICT_GOOD:
+                sx = rnd.choice(syntaxes_of(kind))
+                var = syntax_var(kind, sx, rep=rnd.choice(['markup', 'bmp', 'astral', None]))
+            lay.append((rnd.choice(['', '', 'sub', 'sub/deep', 'other']), kind, var))
+        yield ('syntax-random', i), lay
+
+
+def fc_syntax_layouts(tier, target, source_kinds):
+    """Directories of valid files in varying markup for the format converter: all of them in one directory (quick,
+    RDF targets other than turtle / xml: a third of them, rotating with the target), thorough also one by one."""
+    a, b = source_kinds[0], source_kinds[-1]
+    names = list(XML_SYNTAX)
+    every = [((a, b)[i % 2], syntax_var((a, b)[i % 2], sx)) for i, sx in enumerate(names)]
+    if tier == 'quick' and target not in ('v1_1', 'odml', 'turtle', 'xml'):
+        k = sorted(RDF_TARGETS).index(target) % 3
+        every = every[k::3]
+    yield ('syntax-all', 'nested'), [(['', 'sub', 'sub/deep'][i % 3], k, v) for i, (k, v) in enumerate(every)]
+    if tier != 'quick':
+        yield ('syntax-all', 'flat'), [('', k, v) for k, v in every]
+        if target in ('v1_1', 'odml', 'turtle', 'json-ld'):
+            for kind, var in every:
+                yield ('syntax-single', kind, var[2]), [('', kind, var)]
+
+
 def _one_case(col, ck, key, layout, tool, recursive, explicit, context=None, target=None, expect_ok=False):
     case = Case(layout, shared=True, context=context)
     col.case(cls_key=(key, tool, target, recursive, explicit),
@@ -1170,7 +1683,7 @@ def shared_cases(tier, seed, col, ck):
     every file that is not valid (the 15 kinds that are no odML at all + the mid-conversion kinds) before / between /
     after valid files in one run, and alone in a run that precedes a run over valid files in the same process."""
     quick = tier == 'quick'
-    others = list(BAD) + mid_kinds(tier)
+    others = [k for k in BAD if not quick or k not in LOOKALIKE] + mid_kinds(tier)
     v11 = [k for k in GOOD if k.startswith('v11')]
     # ---- (a) one file that is not valid at every position among two valid files of the same family.
     # File names and creation order are fixed per position (f00, f01, f02), the first valid file has the extension
@@ -1259,7 +1772,8 @@ def run_batch(tier, seed):
     col = h.Collector(
         'C17.batch',
         rule='one case = (directory tree, tool, recursive, explicit output[, target format, entry point]); trees for '
-             'the two command line tools: each of 18 file kinds alone, ordered good/bad pairs flat and nested, good/good '
+             'the two command line tools: each file kind alone (8 valid, 15 bad, thorough also the 9 look-alike bad kinds), '
+             'ordered good/bad pairs flat and nested, good/good '
              'pairs, all 24 creation orders of 2 good + 2 bad files, all kinds at once in 3 nestings, the empty '
              'directory, seeded random mixtures; each x recursive on/off x explicit/implicit output directory '
              '(quick: pairs and random trees get two of the four configurations each, round robin); trees for the format converter: valid files of the '
@@ -1268,11 +1782,11 @@ def run_batch(tier, seed):
              'directory names with regex metacharacters; stored forms: every valid kind x every stored form (13 XML: '
              'encoding / byte order mark / declaration / prolog / line ends; 3-4 JSON / YAML) x every character repertoire it '
              'can carry (quick: one per form) alone, each XML form next to each of 7 bad kinds in both creation orders '
-             '(quick: one bad kind per form), all forms together with all 23 bad kinds in 3 nestings, seeded random '
+             '(quick: one bad kind per form), all forms together with all bad kinds in 3 nestings, seeded random '
              'mixtures, for both command line tools and (valid files only) every target of the format converter; file '
              'names with dots / spaces / non-ASCII characters; shared family (every file of a batch has the same '
              'Section / Property names, ids and tree; only author and two values differ): files that are not valid = '
-             'the 15 kinds above + mid-conversion kinds = 19 defects of the content (unnamed Section / Property after '
+             'the 15 kinds above (thorough: + 9 look-alike kinds) + mid-conversion kinds = 19 defects of the content (unnamed Section / Property after '
              'named ones at depth 0-2 / first, malformed id of document / Section / Property, value that does not fit '
              'its dtype, unknown dtype, same-named siblings, Section without type, empty name) x 8 formats + 8 defects '
              'of the XML text (unsupported element late in document / Section / Property / value, misplaced Property / '
@@ -1284,6 +1798,20 @@ def run_batch(tier, seed):
              '(quick: one pair each), '
              '(c) valid files only: all ordered pairs of the 8 valid kinds, all 12 targets of the format converter, '
              '(d) half of them interleaved with valid files in one tree, 4 arrangements, seeded random mixtures; '
+             'markup of the valid files: %d XML spellings of the same content (comments / processing instructions before '
+             'the root, after it, between elements and inside character data with tag-like, odML-like, other-vocabulary-'
+             'like, declaration-like text; DOCTYPE name only / internal subset / system identifier; declaration variants; '
+             'root tag quotes / white space / unused namespace declarations in each attribute order; white space in '
+             'tags; 5 layouts; CDATA, character references, predefined entities, markup characters in every text) x 4 '
+             'XML kinds and %d JSON / YAML spellings (white space, key order, escapes, comments, document markers, flow '
+             'style) x 2 versions: alone, next to each of %d kinds of file to be skipped in both creation orders and '
+             'nested (quick: one tree per markup with a 1.0 file, a 1.1 file and one bad kind, round robin), all in one '
+             'tree interleaved with all bad kinds (4 arrangements, quick 1), 150 (quick 8) random trees with 2-3 combined '
+             'features x stored form x repertoire, for both command line tools; all XML spellings in one directory per '
+             'target of the format converter (quick: a third per RDF target except turtle / xml), thorough also one by '
+             'one for 4 targets; %d kinds of files that mention odML without being odML (quick: only in trees of their '
+             'own: alone, before valid files) join the files to be skipped; '
+             % (len(XML_SYNTAX), len(DICT_SYNTAX), len(CORE_BAD + XML_LOOKALIKE), len(LOOKALIKE)) +
              'class key = (layout key, tool, configuration)',
         exhaustive=False)
     ck = Checker(col)
@@ -1312,6 +1840,25 @@ def run_batch(tier, seed):
             if key[0] == 'form-pair' or (tier == 'quick' and key[0] != 'form-all'):
                 configs = [CONFIGS[n % 4]] if tier == 'quick' else [CONFIGS[n % 4], CONFIGS[(n + 3) % 4]]
             for tool in ('odmlconvert', 'odmltordf'):
+                for recursive, explicit in configs:
+                    case = Case(layout)
+                    col.case(cls_key=(key, tool, recursive, explicit),
+                             sample='%s %r -r=%s -o=%s' % (tool, key, recursive, explicit))
+                    try:
+                        run_cli(ck, case, tool, recursive, explicit)
+                    finally:
+                        case.cleanup()
+        # ---- markup of the valid files (comments, processing instructions, DOCTYPE, CDATA, references, quotes, white
+        # space, namespace declarations, layout; key order / style / comments of JSON and YAML); files that mention odML
+        rnd_syntax = random.Random('syntax-%r' % (seed,))
+        for n, (key, layout) in enumerate(syntax_layouts(tier, rnd_syntax)):
+            for ti, tool in enumerate(CLI_TOOLS):
+                if key[0] == 'syntax-all':
+                    configs = [(True, bool(ti))] if tier == 'quick' else CONFIGS
+                elif tier == 'quick' or key[0] == 'syntax-single':
+                    configs = [CONFIGS[(n + ti) % 4]]
+                else:
+                    configs = [CONFIGS[(n + ti) % 4], CONFIGS[(n + ti + 3) % 4]]
                 for recursive, explicit in configs:
                     case = Case(layout)
                     col.case(cls_key=(key, tool, recursive, explicit),
@@ -1353,6 +1900,21 @@ def run_batch(tier, seed):
             for n, (key, layout) in enumerate(fc_form_layouts(tier, sources)):
                 configs = CONFIGS if tier != 'quick' or key[0] == 'form-all' and target in ('v1_1', 'odml', 'turtle') \
                     else [CONFIGS[n % 4]]
+                for recursive, explicit in configs:
+                    via_args = bool((n + recursive + explicit) % 2)
+                    case = Case(layout)
+                    col.case(cls_key=('fc', key, target, recursive, explicit, via_args),
+                             sample='formatconverter %s %r -r=%s out=%s' % (target, key, recursive, explicit))
+                    try:
+                        run_fc(ck, case, target, recursive, explicit, via_args, expect_ok=True)
+                    finally:
+                        case.cleanup()
+            # markup of the valid source files
+            for n, (key, layout) in enumerate(fc_syntax_layouts(tier, target, sources)):
+                if key[0] == 'syntax-all':
+                    configs = [(True, bool(len(target) % 2))] if tier == 'quick' else CONFIGS
+                else:
+                    configs = [CONFIGS[n % 4]]
                 for recursive, explicit in configs:
                     via_args = bool((n + recursive + explicit) % 2)
                     case = Case(layout)
